@@ -624,10 +624,10 @@ func streamBuilder(c *Ctx) {
 	// the empty list
 	c.squareCase(sqCase{max: 4, thr: 64, desc: "empty"})
 	// the 1x1 tail padding square deconstructs to the empty list
-	nc := c.n(700, 12000)
+	nc := c.n(700, 4000)
 	maxes := []int{1, 2, 2, 4, 4, 4, 8, 8, 16}
 	if c.thorough {
-		maxes = []int{1, 2, 4, 4, 8, 8, 16, 16, 32, 64}
+		maxes = []int{1, 2, 4, 4, 8, 8, 16, 16, 32}
 	}
 	for i := 0; i < nc; i++ {
 		sc := c.genSquareCase(maxes)
@@ -821,7 +821,7 @@ func occupied(sq square.Square) int {
 }
 
 func streamBHist(c *Ctx) {
-	nh := c.n(700, 10000)
+	nh := c.n(700, 4000)
 	for i := 0; i < nh; i++ {
 		c.newCase()
 		sc := c.genSquareCase([]int{1, 2, 2, 4, 4, 8, 8, 16})
